@@ -1,7 +1,7 @@
 (* Properties/C14.v — Deprecation strategies allow / warn / deny do exactly what is documented.
    Stated on the model of ExpandedField::render (every emitted field goes through it), for every
    field name, type, qualifier list, option set and deprecation reason. *)
-From GC Require Import Base Rust TypeExpr Heck Strs Naming Enums Schema Query Attrs Codegen Json Serde SerdeLemmas DeprProofs.
+From GC Require Import Base Rust TypeExpr Heck Strs Naming Enums Schema Query Attrs Codegen Json Serde SerdeLemmas DeprProofs StrategyAll.
 
 Theorem C14_allow : forall o g rust ft quals fl boxed depr,
   exists f, render_field (with_strategy o DAllow) g rust ft quals fl depr boxed = Some f /\
@@ -53,3 +53,37 @@ Print Assumptions C14_current_never_touched.
 Print Assumptions C14_strategy_changes_nothing_else.
 Print Assumptions C14_default_is_warn.
 Print Assumptions C14_denied_key_still_accepted.
+
+(* ---------- all programs at once (StrategyAll.v): what the strategy changes in the expansion of ANY
+   selection against ANY schema, at every depth, through fragments, variants and aliases.
+   The expansion only appends rendered fields to its context and never reads them back; so
+     allow = warn with the #[deprecated] marks removed, and
+     deny  = warn with the marked fields removed —
+   the struct ids, type names, variants, aliases, the order and every other field are IDENTICAL
+   (`cmap g` maps the rendered fields of a context pointwise and leaves everything else alone). *)
+Theorem C14_allow_is_warn_unmarked : forall s frs o fuel c sels sid t p,
+  calc s frs (with_strategy o DAllow) fuel (cmap unmark c) sels sid t p =
+  option_map (cmap unmark) (calc s frs (with_strategy o DWarn) fuel c sels sid t p).
+Proof. exact allow_is_warn_unmarked. Qed.
+
+Theorem C14_deny_is_warn_without_marked : forall s frs o fuel c sels sid t p,
+  calc s frs (with_strategy o DDeny) fuel (cmap drop_marked c) sels sid t p =
+  option_map (cmap drop_marked) (calc s frs (with_strategy o DWarn) fuel c sels sid t p).
+Proof. exact deny_is_warn_without_marked. Qed.
+
+(* ... and on the emitted items: under allow exactly the items of warn, marks removed *)
+Theorem C14_items_allow_warn : forall s frs o root sels tname prefix,
+  expand_root s frs (with_strategy o DAllow) root sels tname prefix =
+  option_map (map unmark_item) (expand_root s frs (with_strategy o DWarn) root sels tname prefix).
+Proof. exact expand_root_allow_warn. Qed.
+
+Example C14_strategy_maps_example :
+  let f := mkField "old" (RNamed "i64") None false false (Some (Some "gone")) None false in
+  let h := mkField "fresh" (RNamed "i64") None false false None None false in
+  unmark (Some f) = Some (mkField "old" (RNamed "i64") None false false None None false) /\
+  drop_marked (Some f) = None /\ unmark (Some h) = Some h /\ drop_marked (Some h) = Some h.
+Proof. exact strategy_maps_example. Qed.
+
+Print Assumptions C14_allow_is_warn_unmarked.
+Print Assumptions C14_deny_is_warn_without_marked.
+Print Assumptions C14_items_allow_warn.
